@@ -31,6 +31,10 @@ def scope(tier, seed):
               % len(spaces.nary_path((spaces.P, spaces.Q, spaces.T))),
          'G4': 'total graphs on 4 states (' + ('block %d of 16' % (seed % 16) if tier == 'quick' else 'all 50625')
                + ') x {q everywhere, q missing once} x {A F G q, A G F q, A(q U not q)}',
+         'NEG': 'all 148 labelled K(<=2) x %d negation-rich path formulas (not X not p, not(not p U q), X not F p...)'
+                % len(spaces.negated_path()),
+         'EDIT': 'histories query / edit the same object (one added edge or toggled label) / query on the 82 '
+                 'representatives x 28 formulas',
          'C': 'representatives of K(3) with labels over {p} (one atom) x all 100 formulas size<=1',
          'D': 'size-3 formulas over {p,q}: block(s) of %d x 82 representatives of K(<=2)' % NB3}
     if tier == 'thorough':
@@ -52,6 +56,10 @@ def plan(tier, seed):
             sh.append(['B', i, b, 2])
     for lo, hi in chunks(82, 2):
         sh.append(['N', lo, hi])
+    for lo, hi in chunks(148, 3):
+        sh.append(['NEG', lo, hi])
+    for lo, hi in chunks(82, 2):
+        sh.append(['EDIT', lo, hi])
     for lo, hi in chunks(50625, 1024):
         sh.append(['G4', lo, hi, (seed % 16) if tier == 'quick' else None])
     n3 = len(_k3_one_atom())
@@ -138,6 +146,43 @@ def run_shard(shard, tier, seed, acc):
                 for g in (forms if miss is not None else forms[:2]):
                     check_one(k, Kl, g, acc, audit=False)
         return
+    if kind == 'NEG':
+        forms = spaces.negated_path()
+        for k in _ks2()[shard[1]:shard[2]]:
+            Kl = lib.to_kripke(k)
+            for j, g in enumerate(forms):
+                if j % 64 == 0 and deadline_passed():
+                    acc.capped()
+                    return
+                check_one(k, Kl, g, acc, audit=(j % 8 == 0))
+        return
+    if kind == 'EDIT':
+        reps = _reps2()[shard[1]:shard[2]]
+        gs = spaces.path_by_size(1, spaces.LEAVES2)
+        for k in reps:
+            for edit, k2 in spaces.k_edits(k):
+                Kl = lib.to_kripke(k)
+                for g in gs:
+                    check_one(k, Kl, g, acc, audit=False)
+                r = call(spaces.apply_edit, Kl, edit)
+                if r[0] != 'ok':
+                    acc.harness_error('edit %r failed: %r' % (edit, r[1:]))
+                    continue
+                acc.add('edit_histories')
+                sem2 = Sem(k2)
+                for g in gs:
+                    f = ('A', g)
+                    ref = sem2.sat(f)
+                    res = as_state_set(call(lib.LTL.modelcheck, Kl, lib.build(f, lib.LTL)))
+                    acc.ev(1, 1 if 0 < len(ref) < k.n else 0)
+                    if res != ('set', sorted(ref)):
+                        acc.violation('wrong-answer-after-edit',
+                                      kcase(k, f, edit=list(edit), history='all A g (size 1), edit, query'),
+                                      sorted(ref), res)
+                        break
+        acc.sample({'history': ['modelcheck(K, A g)', 'K.labels(0).add("p")', 'modelcheck(K, A g)'],
+                    'k': reps[0].to_json()})
+        return
     if kind == 'N':
         forms = spaces.nary_path((spaces.P, spaces.Q, spaces.T))
         for k in _reps2()[shard[1]:shard[2]]:
@@ -190,6 +235,21 @@ def replay(art):
     k = spaces.K.from_json(case['k'])
     Kl = lib.to_kripke(k)
     f = spaces.from_jsonable(case['f'])
+    if art['kind'] == 'wrong-answer-after-edit':
+        edit = tuple(case['edit'])
+        k2 = [x for e, x in spaces.k_edits(k) if list(e) == list(edit)][0]
+        gs = spaces.path_by_size(1, spaces.LEAVES2)
+        for g in gs:
+            call(lib.LTL.modelcheck, Kl, lib.build(('A', g), lib.LTL))
+        spaces.apply_edit(Kl, edit)
+        bad = []
+        sem2 = Sem(k2)
+        for g in gs:
+            ref = sorted(sem2.sat(('A', g)))
+            res = as_state_set(call(lib.LTL.modelcheck, Kl, lib.build(('A', g), lib.LTL)))
+            if res != ('set', ref):
+                bad.append([spaces.fstr(g), ref, res])
+        return {'violates': bool(bad), 'wrong': bad[:3]}
     ref = sorted(Sem(k).sat(f))
     res = as_state_set(call(lib.LTL.modelcheck, Kl, lib.build(f, lib.LTL)))
     res2 = as_state_set(call(lib.LTL.modelcheck, Kl, lib.build(f, lib.LTL)))
